@@ -48,11 +48,11 @@ def gen_case(rng, i):
     obs_kind = rng.choice(OBS_KINDS)
     vecnorm = rng.random() < 0.25
     if vecnorm:
-        obs_kind = rng.choice(["box1", "box2"])     # VecNormalize needs Box observations
+        obs_kind = rng.choice(["box1", "box2", "dictc"])     # VecNormalize needs Box observations (or a Dict of them, with norm_obs_keys)
     elif i % 9 == 4:
         obs_kind = rng.choice(["image", "dictimg"])
     split_fe = rng.random() < 0.4                   # separate actor / critic feature extractors (with parameters)
-    return {"id": i, "vecnorm": vecnorm, "vn_obs": rng.random() < 0.6, "split_fe": split_fe, "algo": rng.choice(["PPO", "A2C"]), "n_envs": n_envs, "n_steps": rng.randint(1, 6),
+    return {"id": i, "sde_freq": rng.choice([-1, 1, 2, 3]), "vecnorm": vecnorm, "vn_obs": rng.random() < 0.6, "split_fe": split_fe, "algo": rng.choice(["PPO", "A2C"]), "n_envs": n_envs, "n_steps": rng.randint(1, 6),
             "act": ACT_KINDS[i % len(ACT_KINDS)], "obs": obs_kind, "gamma": rng.choice([0.5, 0.9, 0.99]),
             "calls": calls, "seed": rng.randint(0, 10**6),
             "scripts": [se.gen_script(rng, max_len=5, tag_base=1000 * e, tag_cap=250 if obs_kind in ("image", "dictimg") else se.MAXTAG - 1, p_both=0.2, p_trunc=0.45) for e in range(n_envs)]}
@@ -109,6 +109,30 @@ def run_impl(case):
     vn = bool(case.get("vecnorm"))
     vn_obs = vn and bool(case.get("vn_obs"))
 
+    def cp(o):
+        return {k: np.array(v, copy=True) for k, v in o.items()} if isinstance(o, dict) else np.array(o, copy=True)
+
+    def eq(a, b):
+        if isinstance(a, dict) or isinstance(b, dict):
+            return isinstance(a, dict) and isinstance(b, dict) and a.keys() == b.keys() and all(eq(a[k], b[k]) for k in a)
+        a, b = np.asarray(a), np.asarray(b)
+        return a.shape == b.shape and np.array_equal(a, b)
+
+    def row(o, i):
+        return {k: np.asarray(v)[i] for k, v in o.items()} if isinstance(o, dict) else np.asarray(o)[i]
+
+    def nrows(o):
+        return len(next(iter(o.values()))) if isinstance(o, dict) else len(o)
+
+    def close_obs(a, b):
+        if isinstance(a, dict):
+            return all(np.allclose(a[k], b[k], rtol=1e-6, atol=1e-6) for k in a)
+        return np.allclose(a, b, rtol=1e-6, atol=1e-6)
+
+    def first(o):
+        o = next(iter(o.values())) if isinstance(o, dict) else o
+        return float(np.asarray(o).reshape(-1)[0])
+
     class RecWrap(VecEnvWrapper):
         """outermost wrapper over VecNormalize: remembers exactly what the algorithm was handed (normalised arrays) together with
         the raw tags, so that normalised observations can be mapped back to tags by array identity"""
@@ -119,7 +143,7 @@ def run_impl(case):
             self.before, self.seen_r, self.term_bad = [], [], []
 
         def _note(self, obs):
-            self.last_obs = np.array(obs, copy=True)
+            self.last_obs = cp(obs)
             self.last_tags = se.decode_batch(ospace, self.venv.get_original_obs(), ne)
 
         def reset(self):
@@ -133,40 +157,44 @@ def run_impl(case):
             obs, r, d, infos = self.venv.step_wait()
             self._note(obs)
             self.seen_r.append([float(x) for x in r])
-            self.last_term = {e: (np.array(infos[e]["terminal_observation"], copy=True), [x for x in base.envs[e].gt if x[0] == "step"][-1][1])
+            self.last_term = {e: (cp(infos[e]["terminal_observation"]), [x for x in base.envs[e].gt if x[0] == "step"][-1][1])
                               for e in range(ne) if d[e]}
             for e, (tobs, tag) in self.last_term.items():
                 # the terminal observation must reach the algorithm the way every observation does (normalised with the statistics in force)
-                exp = self.venv.normalize_obs(np.asarray(se.encode(ospace, tag)))
-                if not np.allclose(tobs, exp, rtol=1e-6, atol=1e-6):
-                    self.term_bad.append([len(self.seen_r) - 1, e, float(np.asarray(tobs).reshape(-1)[0]), float(np.asarray(exp).reshape(-1)[0])])
+                raw = se.encode(ospace, tag)
+                exp = self.venv.normalize_obs(cp(raw) if isinstance(raw, dict) else np.asarray(raw))
+                if not close_obs(tobs, exp):
+                    self.term_bad.append([len(self.seen_r) - 1, e, first(tobs), first(exp)])
             return obs, r, d, infos
 
     if vn:
         from stable_baselines3.common.vec_env import VecNormalize
 
-        venv = RecWrap(VecNormalize(base, norm_obs=vn_obs, norm_reward=True, clip_obs=1e9, gamma=case["gamma"]))
+        vkw = dict(norm_obs_keys=["a"]) if case["obs"] == "dictc" and vn_obs else {}     # Dict observations: only the listed keys are normalised
+        venv = RecWrap(VecNormalize(base, norm_obs=vn_obs, norm_reward=True, clip_obs=1e9, gamma=case["gamma"], **vkw))
     else:
         venv = base
 
     def lookup(arr):
         """normalised batch -> tags, by identity with what the env wrapper handed out"""
-        arr = np.asarray(arr)
-        if venv.last_obs is not None and arr.shape == venv.last_obs.shape and np.array_equal(arr, venv.last_obs):
+        if not isinstance(arr, dict):
+            arr = np.asarray(arr)
+        if venv.last_obs is not None and eq(arr, venv.last_obs):
             return list(venv.last_tags)
-        if arr.shape[0] == 1:
+        if nrows(arr) == 1:
             for e, (tobs, tag) in venv.last_term.items():
-                if np.array_equal(arr[0], tobs):
+                if eq(row(arr, 0), tobs):
                     return [tag]
-        return ["unmatched-normalised-observation"] * arr.shape[0]
+        return ["unmatched-normalised-observation"] * nrows(arr)
     pk = dict(net_arch=[8])
     kw = {}
     if act == "box_squash":
         kw["use_sde"] = True
+        kw["sde_sample_freq"] = case.get("sde_freq", -1)
         pk["squash_output"] = True
     if act == "box_sde":
         kw["use_sde"] = True
-        kw["sde_sample_freq"] = 2
+        kw["sde_sample_freq"] = case.get("sde_freq", 2)
     policy = {"dictc": "MultiInputPolicy", "dictimg": "MultiInputPolicy", "image": "CnnPolicy"}.get(case["obs"], "MlpPolicy")
     if case["obs"] == "image":
         pk["features_extractor_kwargs"] = dict(features_dim=8)
@@ -235,6 +263,24 @@ def run_impl(case):
 
     pol.forward = fwd
     pol.predict_values = pv
+    sde_resets, in_train = [], [False]
+    if getattr(model, "use_sde", False):
+        o_rn, o_train = pol.reset_noise, model.train
+
+        def reset_noise(*a, **k):
+            if not in_train[0]:
+                sde_resets.append(sum(1 for e in events if e[0] == "fwd"))
+            return o_rn(*a, **k)
+
+        def train_(*a, **k):
+            in_train[0] = True
+            try:
+                return o_train(*a, **k)
+            finally:
+                in_train[0] = False
+
+        pol.reset_noise = reset_noise
+        model.train = train_
     snaps = []
 
     class Snap(BaseCallback):
@@ -254,7 +300,7 @@ def run_impl(case):
                         batch = batch.reshape(ne)
                 if vn_obs:
                     g = len(snaps) * T + t
-                    ok = g < len(venv.before) and np.array_equal(np.asarray(batch), venv.before[g][0])
+                    ok = g < len(venv.before) and eq(batch, venv.before[g][0])
                     obs_tags.append(list(venv.before[g][1]) if ok else ["unmatched-normalised-observation"] * ne)
                     continue
                 try:
@@ -289,7 +335,9 @@ def run_impl(case):
     space = base.action_space
     sp = {"low": np.asarray(space.low, dtype=np.float64).reshape(-1).tolist(), "high": np.asarray(space.high, dtype=np.float64).reshape(-1).tolist()} if isinstance(space, spaces.Box) else {}
     return {"events": events, "snaps": snaps, "gt": [base.envs[e].gt for e in range(ne)], "space": sp, "squash": bool(pol.squash_output),
-            "seen_r": venv.seen_r if vn else None, "term_bad": venv.term_bad if vn else []}
+            "seen_r": venv.seen_r if vn else None, "term_bad": venv.term_bad if vn else [],
+            "use_sde": bool(getattr(model, "use_sde", False)), "sde_resets": sde_resets,
+            "sde_freq": int(getattr(model, "sde_sample_freq", -1))}
 
 
 def _worker(case):
@@ -375,6 +423,14 @@ def oracle(case, impl, ros):
     for g, e, got, exp in impl.get("term_bad", []):
         probs.append(("oracle-terminal-observation-not-normalised", f"step {g} env {e}: the terminal observation handed over under VecNormalize starts with {got}, "
                                                                     f"the observations the policy is trained on are normalised ({exp})"))
+    if impl.get("use_sde"):
+        f = impl["sde_freq"]
+        for r in range(len(impl["snaps"])):
+            got = [p - r * ns for p in impl["sde_resets"] if r * ns <= p < (r + 1) * ns]
+            want = [0] + [j for j in range(ns) if f > 0 and j % f == 0]
+            if got != want:
+                probs.append(("oracle-sde-resample-cadence", f"rollout {r} ({ns} steps, sde_sample_freq {f}): reset_noise at step indices {got}, expected {want}"))
+                break
     for r, (ro, sn) in enumerate(zip(ros, impl["snaps"])):
         if not sn["full"]:
             probs.append(("oracle-buffer-not-full", f"rollout {r}: buffer not full at rollout end"))
@@ -499,12 +555,20 @@ def model_exprs(case, impl, ros):
             calls.append(f"({coq_bool(eff_reset)}, {coq_list(rs)})")
             impls.append(coq_list(ims))
         exprs.append(f"check_col (1 # 100000)%Q (1 # 100000)%Q {ak} {fq(case['gamma'])} {se.coq_script(case['scripts'][e])} {coq_list(calls)} {coq_list(impls)}")
+    if impl.get("use_sde"):
+        exprs.append(f"sde_calls true {coq_Z(impl['sde_freq'])} {common.coq_nat(ns)}")
     return exprs
 
 
 def compare(case, impl, ros, vals):
     probs = []
     ne, ns = case["n_envs"], case["n_steps"]
+    if impl.get("use_sde"):
+        for r in range(len(impl["snaps"])):
+            got = [p - r * ns for p in impl["sde_resets"] if r * ns <= p < (r + 1) * ns]
+            if got != vals[ne]:
+                probs.append(("sde-resample-positions", f"rollout {r}: impl reset_noise positions {got}, model {vals[ne]}"))
+                break
     for e in range(ne):
         flat = [ro for call in vals[e] for ro in call]
         if len(flat) != len(impl["snaps"]):
